@@ -38,6 +38,18 @@ pub fn set_policy(p: Policy, seed: u64, herd: usize) {
     HERD_WAITING.store(0, Ordering::SeqCst);
 }
 
+/// running totals of hook events seen by this process (all monitors): parallel pivot commits (commits with
+/// snapshot < index are 'stale'), pivot retries, triangular-solve / Schur columns started, union-find pair visits
+pub static N_PIV_COMMIT: AtomicU64 = AtomicU64::new(0);
+pub static N_PIV_STALE: AtomicU64 = AtomicU64::new(0);
+pub static N_PIV_RETRY: AtomicU64 = AtomicU64::new(0);
+pub static N_COL_START: AtomicU64 = AtomicU64::new(0);
+pub static N_PAIR_VISIT: AtomicU64 = AtomicU64::new(0);
+
+pub fn hook_totals() -> [u64; 5] {
+    [N_PIV_COMMIT.load(Ordering::Relaxed), N_PIV_STALE.load(Ordering::Relaxed), N_PIV_RETRY.load(Ordering::Relaxed), N_COL_START.load(Ordering::Relaxed), N_PAIR_VISIT.load(Ordering::Relaxed)]
+}
+
 pub fn reset_steps() {
     for c in [&STEPS_LLL, &STEPS_HNF, &STEPS_SNF_ELIM, &STEPS_SNF_DIAG] { c.store(0, Ordering::SeqCst) }
 }
@@ -84,6 +96,13 @@ fn on_event(ev: &Event) {
             }
             return
         }
+        _ => {}
+    }
+    match ev {
+        Event::PivCommit { snapshot, index, .. } => { N_PIV_COMMIT.fetch_add(1, Ordering::Relaxed); if snapshot < index { N_PIV_STALE.fetch_add(1, Ordering::Relaxed); } }
+        Event::PivRetry { .. } => { N_PIV_RETRY.fetch_add(1, Ordering::Relaxed); }
+        Event::ColStart { .. } => { N_COL_START.fetch_add(1, Ordering::Relaxed); }
+        Event::PairVisit { .. } => { N_PAIR_VISIT.fetch_add(1, Ordering::Relaxed); }
         _ => {}
     }
     if RECORD.load(Ordering::Relaxed) {
